@@ -59,6 +59,8 @@ def _mk_opcond(case):
         holding = None
     elif case.get("isList", True):
         holding = [dict(temp=h[0], duration=h[1]) for h in holds]
+        if case.get("container") == "tuple":  # the documented Iterable-of-dict input type other than list
+            holding = tuple(holding)
     else:
         holding = dict(temp=holds[0][0], duration=holds[0][1])
     return OperatingConditions(t_tot=case["t_tot"], cooling=cooling, holding=holding)
@@ -133,7 +135,8 @@ def _apply_history(oc, case):
             # through the property setter (which re-orders the holds), not by mutating a dict
             hs = [dict(h) for h in oc.holding]
             hs[op[1] % len(hs)]["duration"] = op[2]
-            oc.holding = hs
+            # odd index: re-assigned as a tuple listed in reverse order (order/type must not matter)
+            oc.holding = tuple(reversed(hs)) if op[1] % 2 else hs
         elif op[0] == "consume0D":
             try:
                 from ethz_snow.snowing import Snowing
@@ -456,6 +459,8 @@ def _structured(rng, small=False):
                 holds=(holds if nh else None), isList=True, dt=dt)
     if nh == 1 and rng.random() < 0.5:
         case["isList"] = False
+    elif nh and rng.random() < 0.3:
+        case["container"] = "tuple"
     if t_tot / dt <= 400:
         case["flake"] = True
     return case
@@ -475,9 +480,12 @@ def _exact(rng):
         dur = rng.choice([0, 0.125, 0.5, 1, 2, 3.75, 10, 16.5])
         holds.append([temp, dur])
     t_tot = rng.choice([0, 0.125, 1, 7, 7.5, 33, 64.25, 100, 250.5])
-    return dict(kind="exact", exact=True, t_tot=t_tot, start=start, stop=stop, rate=rate,
-                holds=(holds if nh else None), isList=True, dt=dt,
-                flake=(t_tot / dt <= 400))
+    c = dict(kind="exact", exact=True, t_tot=t_tot, start=start, stop=stop, rate=rate,
+             holds=(holds if nh else None), isList=True, dt=dt,
+             flake=(t_tot / dt <= 400))
+    if nh and rng.random() < 0.3:
+        c["container"] = "tuple"
+    return c
 
 
 def _malformed(rng):
